@@ -155,13 +155,15 @@ CLAIMED = {
          "history of linearisation events with the results computed from concrete memory is a legal sequential LIFO history and memory "
          "represents the abstract stack; every step is a stutter or the sequential operation), *_each_node_popped_once (conservation), "
          "*_pop_all_returns_all_in_lifo_order_and_empties, *_iteration_exact, *_push_ret_consistent, *_empty_consistent, "
-         "*_pop_null_iff_empty, lfs_pop_returns_top, wfs_no_aba / lfs_no_aba (mutex, single consumer and RCU-protected poppers with "
-         "recycling only after a GpSpec grace period), lfs_rcu_node_not_recycled, lfs_tso_private_init, wfs_iteration/pop_past_incomplete_"
-         "push; necessity witness lfs_unprotected_aba_witness. Tie: the real src/wfstack.c, src/lfstack.c, src/rculfstack.c (+ real "
+         "*_pop_null_iff_empty, lfs_pop_returns_top; C11_full_holds: both stacks refine the sequential LIFO under every documented "
+         "scheme - internal mutex, single consumer, concurrent poppers in RCU read-side sections with node recycling only after a "
+         "GpSpec grace period (wfstack technique 1 included); wfs_no_aba / lfs_no_aba for all three; wfs/lfs_rcu_node_not_recycled, "
+         "wfs_rcu_recycle_after_gp, lfs_tso_private_init, wfs_iteration/pop_past_incomplete_push; necessity witnesses Wfs/Neg.lean, "
+         "Lfs/Neg.lean (unprotected concurrent pops + immediate re-push => stale-next cmpxchg, node delivered twice). Tie: the real src/wfstack.c, src/lfstack.c, src/rculfstack.c (+ real "
          "src/urcu.c for the RCU scheme) under the macro shim and cooperative scheduler; every trace replayed by Driver/Wfs.lean / "
          "Driver/Lfs.lean on the proven models; independent C oracle (LIFO linearizability, return values, exactly-once, recycled-node "
-         "accesses); random/PCT/one-preemption sweep; required-branch coverage enforced. Partial: wfstack poppers under RCU (technique 1 "
-         "of wfstack.h) have no L2 model (C11_full stays stated, unproved).",
+         "accesses); random/PCT/one-preemption sweep; 7 configurations incl. wfs/rcu (real urcu memb, concurrent mutex-free poppers, "
+         "pop-vs-pop cmpxchg failures required by coverage).",
     note="Trusted: Lean kernel; x86-TSO; GpSpec as the meaning of synchronize_rcu (composition by interface, the model's guard is "
          "re-checked at every real synchronize_rcu return on explored schedules); one popped list per thread at a time; L1 ⊑ L2 checked on "
          "explored schedules only; plain node->next initialisation reported by the scenario.",
@@ -226,6 +228,58 @@ CLAIMED = {
          "freeze schedules only; hash-table facet pending (listed under facets_not_built_yet in the evidence).",
     technique="Lean 4 termination-measure / bounded-solo-run proofs on TSO transition systems + freeze-schedule trace refinement of the real sources",
     design_ref="§4 C17", engine="progress"),
+ "C16": dict(
+    text="Lean 4 theorems on explicit-pc transition systems of the fork handlers (Fork/Model.lean: call_rcu_before_fork / "
+         "after_fork_parent / after_fork_child at flag-access granularity, the helper pause branch, fork as a state function "
+         "childOf / parentOf, any number of threads, helpers and callbacks, nested forks; Fork/Bp.lean; Fork/Wq.lean): "
+         "fork_point_quiescent (when before_fork has returned every helper is at its pause spin, holds no lock, has an empty batch, is "
+         "not registered as a reader, every queued callback is in exactly one queue), fork_snapshot, child_state_wf, cb_at_most_once, "
+         "child/parent_callbacks_once_partial (never lost, at most once, invoked once iff done), child_gp_terminates + child_registry "
+         "(no wait on an erased thread), child_barrier_terminates, helpers_alive, after_fork_child_terminates (measure), "
+         "bp_fork_point, bp_child_pruned, bp_child_gp_terminates, atfork_nesting_balanced; before_fork_hangs_unfixed (Lean record of "
+         "the repaired qsbr defect). Tie: the real urcu.c / urcu-qsbr.c / urcu-bp.c with urcu-call-rcu-impl.h (and rculfhash.c + "
+         "workqueue.c, oracles only) under the cooperative runtime with a real fork(): 7 configurations x seeds x fork points x up to "
+         "three generations, helpers caught mid-batch, online qsbr forker, bp with other readers inside sections; the child creates "
+         "new reader threads and uses read-side sections, synchronize_rcu, call_rcu, rcu_barrier, a resizable hash table; every "
+         "process trace replayed on drv_fork; oracles: per-process invocation counts, registry, crd list, no join, termination. "
+         "Partial: liveness of invocation (C16_full) needs the helper futex handshake (C03) + fairness; lfht hooks by oracles only.",
+    note="Trusted: Lean kernel; fork() clones only the calling thread with a copy of memory; documented preconditions as guards (handlers "
+         "called outside read-side sections; other application threads idle and unregistered at the fork for non-bp flavors); callbacks "
+         "terminate and do not call rcu_barrier or helper management; L1 ⊑ L2 on explored schedules only. Observations outside the "
+         "property's quantifier recorded in DESIGN §10.4 (call_rcu_data_free concurrent with before_fork; child's resize worker busy-spins).",
+    technique="Lean 4 inductive invariant (57 clauses, one lemma per label) on explicit-pc transition systems with fork as a state function + termination measure; event-level trace refinement of the real sources across a real fork()",
+    design_ref="§4 C16, §10.4", engine="fork"),
+ "C03": dict(
+    text="Lean 4 theorems on an executable model of src/urcu-call-rcu-impl.h (any number of enqueuers, helpers, readers, creators and "
+         "destroyers, all interleavings, all futex outcomes): cb_at_most_once, cb_conserved (exactly one place across the helper's "
+         "splice and the hand-over on destroy), cb_after_gp (invocation after a GpSpec grace period that began after the enqueue), "
+         "cb_same_head, cb_fifo_per_helper, no_enqueue_to_freed_helper + leftovers_handed_over + free_protocol (uses the read-side "
+         "section call_rcu holds and the documented contract of call_rcu_data_free), helper_futex_range, helper_no_lost_wakeup, "
+         "waker_not_stuck / waker_measure, helper_no_stuck / helper_measure; the same handshake with an explicit x86-TSO store buffer "
+         "(tso_no_lost_wakeup) and the necessity witness lost_wakeup_if_dec_after_check. Tie: real src/urcu.c + urcu-call-rcu-impl.h "
+         "+ wfcqueue under the shim (memb with/without sys_membarrier, mb), 1-3 workers, re-enqueueing callbacks, per-thread / per-CPU "
+         "/ default helpers incl. RT, call_rcu_data_free with pending callbacks, create_all / free_all / set_cpu, futex fault plans "
+         "incl. ENOSYS, urcu_call_rcu_exit; every event replayed on Driver/CallRcu.lean; one-preemption sweeps of the helper's "
+         "dec / empty-check / sleep window and the enqueuer's enqueue / wake window; oracles once / head / gp / uaf + deadlock / "
+         "budget. Partial: 'eventually invoked' (C03_full) needs a fair scheduler and is not proved; qsbr / bp flavors not run.",
+    note="Trusted: Lean kernel; GpSpec (C01) as synchronize_rcu; wfcqueue FIFO / atomic enqueue (C10); x86-TSO + futex contract; caller "
+         "obligations of the API as model guards; L1 transliteration ⊑ L2 on explored schedules only.",
+    technique="Lean 4 inductive invariants (placement, timing, order, destruction protocol, sleep/wake handshake; one lemma per label) + event-level trace refinement of the real source under the cooperative runtime with fault injection and one-preemption sweeps",
+    design_ref="§4 C03", engine="callrcu"),
+ "C04": dict(
+    text="Lean 4 theorems on the barrier layer over the C03 model (any number of concurrent barriers, enqueuers, helpers, helper "
+         "creation / destruction): barrier_complete (when rcu_barrier has read barrier_count == 0 or returned, every callback queued "
+         "at the call has finished, invoked exactly once), via marker_fifo (every covered callback still pending on a helper is "
+         "followed in that helper's execution order by a live marker of the barrier; preserved by enqueues, the helper's splice / "
+         "invoke loop and the splice of a destroyed helper's leftovers), barrier_count_exact, holder_listed; completion_lifetime "
+         "(refcount = caller + markers not yet put, freed exactly at 0, no access afterwards); barrier_futex_range, "
+         "barrier_no_lost_wakeup, outstanding_marker, marker_not_stuck / marker_measure; barrier_in_cs_refused. Tie: the C03 "
+         "scenarios with rcu_barrier callers (concurrent, inside a section, with no helper), oracle 'barrier' + completion poison "
+         "check, sweep of the helper inside the caller's dec / count-test / FUTEX_WAIT window. Partial: 'always returns' as a temporal "
+         "statement (C04_full) is not proved; qsbr online/offline caller not run.",
+    note="Trusted: as C03; the barrier layer reaches C03 only through the hooks (base_reach proved).",
+    technique="Lean 4 invariants (bookkeeping / refcount / handshake per label; list-decomposition proof of the marker-FIFO invariant) + the C03 trace refinement",
+    design_ref="§4 C04", engine="callrcu"),
  "C14": dict(
     text="Lean 4 theorems poll_sound / poll_monotone / poll_no_stuck / poll_progress (inductive invariant over all operation "
          "interleavings, any number of readers and handles) on an executable model of urcu-poll-impl.h; the model is tied to "
